@@ -247,6 +247,10 @@ func (s *Scanner) Scan(src interface{}) error {
 	// }
 	switch {
 	case s.Tags.Contains("binary"):
+		// BINARY and VARBINARY columns of a change-log row arrive as string.
+		if str, ok := src.(string); ok {
+			src = []byte(str)
+		}
 		b, ok := src.([]byte)
 		if !ok {
 			return fmt.Errorf("binary column must be of type []byte, got %T", src)
